@@ -221,12 +221,14 @@ func runTuple(t *engine.T, kr *kxRef, tp tuple, o options, keyPrefix string) {
 			t.Fail(keyPrefix+"/sm2/NewPrivateKey", "%s: NewPrivateKey(dB): %v", ctx, err)
 			return
 		}
-		ini, err := sm2.NewKeyExchange(privA, &privB.PublicKey, o.uidA, o.uidB, o.klen, cm.gi)
+		ua, ub := adjacentUIDs(o.uidA, o.uidB)
+		ini, err := sm2.NewKeyExchange(privA, &privB.PublicKey, ua, ub, o.klen, cm.gi)
 		if err != nil {
 			t.Fail(keyPrefix+"/sm2/NewKeyExchange", "%s: initiator: %v", ctx, err)
 			return
 		}
-		rsp, err := sm2.NewKeyExchange(privB, &privA.PublicKey, o.uidB, o.uidA, o.klen, cm.gr)
+		ub2, ua2 := adjacentUIDs(o.uidB, o.uidA)
+		rsp, err := sm2.NewKeyExchange(privB, &privA.PublicKey, ub2, ua2, o.klen, cm.gr)
 		if err != nil {
 			t.Fail(keyPrefix+"/sm2/NewKeyExchange", "%s: responder: %v", ctx, err)
 			return
@@ -450,4 +452,19 @@ func (Prop) Run(c *engine.Ctx) {
 			})
 		}
 	}
+}
+
+// adjacentUIDs lays the two identities out as one record (own uid directly followed by the peer uid, the first one's
+// capacity reaching over the second): results must not depend on what lies behind an argument.
+func adjacentUIDs(a, b []byte) ([]byte, []byte) {
+	if len(a) == 0 {
+		return a, b
+	}
+	rec := make([]byte, len(a)+len(b)+8)
+	copy(rec, a)
+	copy(rec[len(a):], b)
+	for i := len(a) + len(b); i < len(rec); i++ {
+		rec[i] = 0xD1
+	}
+	return rec[:len(a):len(rec)], rec[len(a) : len(a)+len(b) : len(rec)]
 }
